@@ -323,6 +323,9 @@ func TestWorker(t *testing.T) {
 		}
 		seed := seed0 + int64(i)*stride
 		o := runOne(t, dir, profile, seed, steps, nil)
+		if os.Getenv("VERIF_PRINT_TRACE") != "" {
+			fmt.Fprintf(os.Stderr, "TRACE seed %d\n%s\n", seed, strings.Join(o.trace, "\n"))
+		}
 		res.Runs++
 		res.Steps += o.steps
 		res.VirtualSec += o.virtual.Seconds()
